@@ -7,6 +7,7 @@ import Propka.Model.GroupsDriver
 import Propka.Gen.Bonds
 import Propka.Gen.Protonate
 import Propka.Gen.Pipeline
+import Propka.Gen.Consts
 /-! Line-protocol handler for the set-up pipeline at `Float`, with the tables regenerated from /repo. -/
 namespace Propka.Pipe
 open Propka Propka.Py Propka.Scoring
@@ -54,6 +55,13 @@ def showGroup (atoms : Array (PAtom Float)) (g : PGroup Float) : String :=
   "|".intercalate [tohexS g.type, tohexS g.resType, tohexS g.label, if a.het then "0" else "1", toString a.resNum, fbits g.q, fbits g.model,
     if g.titratable then "1" else "0", if a.bridged then "1" else "0", toString g.atom, showNats g.iaAcid, showNats g.iaBase, showNats g.cov,
     fbits g.centre.x, fbits g.centre.y, fbits g.centre.z, g.cls, if g.excludeCys then "1" else "0"]
+
+/-- the parameters of the coupling search, regenerated from /repo -/
+def shippedCP : CoupleSearch.CP Float :=
+  { probe := ⟨microF Gen.Cfg.f_min_interaction_energy, microF Gen.Cfg.f_min_pka, microF Gen.Cfg.f_max_pka, microF Gen.Cfg.f_max_free_energy_diff,
+              microF Gen.Cfg.f_min_swap_pka_shift, microF Gen.Cfg.f_max_intrinsic_pka_diff,
+              if Gen.Cfg.f_pH == "variable" then none else pyFloat Gen.Cfg.f_pH.toList⟩,
+    scaling := Gen.Consts.group_UNK_PKA_SCALINGF, fixed := Gen.Scoring.fixedPka, titratableTypes := Gen.Pipeline.intrinsicExcluded }
 
 def optsOf (pa to : String) : Opts := ⟨pa == "1", Groups.parseTO to⟩
 
@@ -114,12 +122,12 @@ def handle (args : List String) : String :=
       | .ok confs =>
         let showD (ds : List (Dets.Det Float)) : String :=
           if ds.isEmpty then "-" else ",".intercalate (ds.map fun d => s!"{tohexS d.label}:{fbits d.value}")
-        let avr := match Program.averageRun confs with
+        let avr := match Program.averageRun shippedCP confs with
           | none => "valueerror"
           | some gs => if gs.isEmpty then "-" else ";".intercalate (gs.map fun g =>
               "|".intercalate [tohexS g.label, tohexS g.type, fbits g.acc.pka, fbits g.nv, fbits g.acc.evol, fbits g.acc.eloc, fbits g.buried,
                 showD g.acc.sc, showD g.acc.bb, showD g.acc.cb])
-        let sections := match Program.averageRun confs, Pdb.parse po lines with
+        let sections := match Program.averageRun shippedCP confs, Pdb.parse po lines with
           | some gs, .ok recs =>
             tohexS (Output.determinantRows removePen Gen.Cfg.f_write_out_order (Output.chainsOf (recs.map Program.core)) gs) ++ "#" ++
             tohexS (Output.summaryRows removePen Gen.Cfg.f_write_out_order gs)
